@@ -698,24 +698,41 @@ pub fn hays_for(sp: &SweepProfile, thorough: bool, prop: Prop) -> Vec<Hay> {
 pub fn run(run: &mut Run, prop: Prop, profile_names: &[&str]) -> Stats {
     let thorough = run.thorough();
     let cfg = Cfg { prop, fuel: if thorough { 2_000_000 } else { 300_000 }, ref_limit: 3_000_000, k_ratio: 256 };
+    let total = drive(run, prop.id(), profile_names, &|sp, th| hays_for(sp, th, prop), &|ast, f, hays, known, st| eval_pattern(&cfg, ast, f, hays, known, st));
+    if total.get("undecided_fuel") > 0 && prop != Prop::C05 {
+        run.caps.push(format!("{} searches cut by the fuel horizon (counted as undecided, see C05)", total.get("undecided_fuel")));
+    }
+    if total.get("reference_cut") > 0 {
+        run.caps.push(format!("{} haystacks skipped because the reference exceeded its own step budget", total.get("reference_cut")));
+    }
+    total
+}
+
+pub type EvalFn<'a> = &'a (dyn Fn(&Node, Flags, &[Hay], &Known, &mut Stats) + Sync);
+pub type HaysFn<'a> = &'a dyn Fn(&SweepProfile, bool) -> Vec<Hay>;
+
+/// Generic driver: every AST of every named profile (smallest first; sizes below the top are stored
+/// and deduplicated, the top size is streamed) x the profile's flags, evaluated in parallel.
+pub fn drive(run: &mut Run, pid: &str, profile_names: &[&str], hays_fn: HaysFn, eval: EvalFn) -> Stats {
+    let thorough = run.thorough();
     let mut total = Stats::default();
     let mut per_profile = Vec::new();
     for name in profile_names {
         let sp = profiles::by_name(name).expect("profile");
-        let max_size = if thorough { sp.size_thorough } else { sp.size_quick };
-        let hays = hays_for(&sp, thorough, prop);
+        let bump: usize = std::env::var("VERIF_SIZE_BUMP").ok().and_then(|s| s.parse().ok()).unwrap_or(0);
+        let max_size = (if thorough { sp.size_thorough } else { sp.size_quick }) + bump;
+        let hays = hays_fn(&sp, thorough);
         let t0 = std::time::Instant::now();
-        // sizes below the top are stored (and deduplicated); the top size is streamed
         let stored = enumerate::enumerate(&sp.profile, max_size.saturating_sub(1).max(1));
         let known = &run.known;
         let mut pst = Stats::default();
         for n in 1..=max_size {
-            let s = if n < stored.len() && (n < max_size || max_size == 1) {
+            let s = if n < max_size || max_size == 1 {
                 stored[n]
                     .par_iter()
                     .fold(Stats::default, |mut st, ast| {
                         for &f in &sp.flags {
-                            eval_pattern(&cfg, ast, f, &hays, known, &mut st);
+                            eval(ast, f, &hays, known, &mut st);
                         }
                         st
                     })
@@ -727,7 +744,7 @@ pub fn run(run: &mut Run, prop: Prop, profile_names: &[&str]) -> Stats {
                     .fold(Stats::default, |mut st, unit| {
                         enumerate::stream_unit(&sp.profile, &stored, n, *unit, &mut |ast: Node| {
                             for &f in &sp.flags {
-                                eval_pattern(&cfg, &ast, f, &hays, known, &mut st);
+                                eval(&ast, f, &hays, known, &mut st);
                             }
                         });
                         st
@@ -751,7 +768,7 @@ pub fn run(run: &mut Run, prop: Prop, profile_names: &[&str]) -> Stats {
         );
         eprintln!(
             "  {} {}: size<={} patterns={} evaluated={} cases={} violations={} known={} ({:.1}s)",
-            prop.id(),
+            pid,
             sp.profile.name,
             max_size,
             pst.get("patterns_generated"),
@@ -764,11 +781,5 @@ pub fn run(run: &mut Run, prop: Prop, profile_names: &[&str]) -> Stats {
         total = total.merge(pst);
     }
     run.extra.push(("profiles".into(), J::Arr(per_profile)));
-    if total.get("undecided_fuel") > 0 && prop != Prop::C05 {
-        run.caps.push(format!("{} searches cut by the fuel horizon (counted as undecided, see C05)", total.get("undecided_fuel")));
-    }
-    if total.get("reference_cut") > 0 {
-        run.caps.push(format!("{} haystacks skipped because the reference exceeded its own step budget", total.get("reference_cut")));
-    }
     total
 }
